@@ -490,7 +490,15 @@ pub fn build_node(it: &J) -> P {
             with_completer(p, it)
         }
         // a fixed word (`literal`): the next unclaimed word must be exactly this one
-        "pos" if !s(it, "lit").is_empty() => bpaf::literal(leak(&dstr(s(it, "lit")))).map(|_| Val::Unit).boxed(),
+        "pos" | "lit" if !s(it, "lit").is_empty() => {
+            let l = bpaf::literal(leak(&dstr(s(it, "lit"))));
+            // (the tag of an adjacent group: looked for anywhere on the line)
+            if b(it, "anywhere") || kind == "lit" {
+                l.anywhere().map(|_| Val::Unit).boxed()
+            } else {
+                l.map(|_| Val::Unit).boxed()
+            }
+        }
         "pos" => {
             let mv = metavar(it);
             let h = s(it, "help");
